@@ -138,6 +138,15 @@ prop('C09', 'model_checking',
      'unsigned requests over HTTP-Redirect; four metadata layouts, two SPs', 'TLA+ scenario spec + TLC + exhaustive replay',
      'section 5 C09')
 
+prop('C10', 'model_checking',
+     'IdPRequest.tla models unravel / signature_check / schema validation / Request._verify and the contract (handed to the '
+     'application only if expected type, schema-valid, Destination absent or own, IssueInstant within a day, signature valid and '
+     'covering the request when present, signed when wanted); TLC checks the repaired design on 680 scenarios (AuthnRequest, '
+     'LogoutRequest to IdP and SP, AttributeQuery x Redirect/POST/SOAP x none/valid/invalid/wrapped signature x option x twelve '
+     'mutations x endpoint configured for the arrival binding or not) and exhibits the counterexample of the pinned design; all '
+     'are rendered (really signed, really wrapped) and replayed through Server.parse_authn_request / parse_attribute_query / '
+     'Entity.parse_logout_request', TOOL_NOTE, 'TLA+ scenario spec + TLC + exhaustive replay', 'section 5 C10')
+
 
 def main():
     props = [json.loads(l) for l in open(os.path.join(VERIF, 'properties.jsonl'))]
